@@ -229,9 +229,10 @@ Definition known_C02_front (T : list str) (attrs : list attr) (vs : list variant
      of that name, i.e. carries another variant's wire name.  [c02_py_key] is that member name on
      ASCII strings.
    - Go with a non-empty uppercase_acronyms list rewrites the identifier inside the constant's name
-     (UserId and UserID both become ...UserID with ["ID"]).  This class is an OVER-approximation
-     (two identifiers equal up to ASCII case): which of them really collide depends on the acronym
-     list; the theorem for Go covers the empty list only. *)
+     (UserId and UserID both become ...UserID with ["ID"]).  known_C02_back's Go arm is an
+     OVER-approximation (two identifiers equal up to ASCII case, whatever the acronym list); the EXACT
+     class for a given list is known_C02_back_go below (two identifiers rewritten to one string), used
+     by the check and proved equivalent to the failure of the verdict (Props C02_back_go_exact). *)
 Definition c02_caps_norm (s : str) : str :=
   match s with
   | [] => []
@@ -275,6 +276,68 @@ Definition known_C02_back (l : lang) (acronyms : bool) (x : c02_expect) : option
     end
   | Go => if acronyms && c02_has_pair c02_upper_eq (c02_idents x) then c02_cls "C02-go-acronym-case-collision" else None
   | TypeScript | Scala => None
+  end.
+
+(* ---------- Go's acronym rewriting as a specification (ASCII strings) ----------
+   For each acronym: its PascalCase form (rename.rs: `_` dropped, the first letter and every letter after a
+   `_` upper-cased, the others lower-cased when the acronym is all upper case, kept otherwise) is searched in
+   the identifier (leftmost, non-overlapping); an occurrence followed by a non-lowercase character or by the
+   end is ACCEPTED; the letters at the positions covered by an accepted occurrence of some acronym are
+   upper-cased.  (Proofs/C02_Go.v: this IS the model's go_convert_acronyms_to_uppercase on ASCII input.)
+   It makes the Go class EXACT: two variants collide iff their identifiers are rewritten to one string. *)
+Fixpoint c02_go_pascal_go (tolow cap : bool) (s : str) : str :=
+  match s with
+  | [] => []
+  | c :: r => if c =? ch_us then c02_go_pascal_go tolow true r
+              else if cap then aupper c :: c02_go_pascal_go tolow false r
+              else (if tolow then alower c else c) :: c02_go_pascal_go tolow false r
+  end.
+Definition c02_go_pascal (a : str) : str := c02_go_pascal_go (str_eqb (str_upper_ascii a) a) true a.
+Fixpoint c02_go_matches (fuel : nat) (p s : str) (off : nat) : list nat :=
+  match fuel with
+  | O => []
+  | S f =>
+    match s with
+    | [] => []
+    | c :: r => if starts_with p s
+                then off :: c02_go_matches f p (skipn (List.length p) s) (off + List.length p)%nat
+                else c02_go_matches f p r (S off)
+    end
+  end.
+Definition c02_go_idx (p s : str) : list nat :=
+  match p with
+  | [] => seq 0 (S (List.length s))          (* an empty pattern matches everywhere and covers nothing *)
+  | _ => c02_go_matches (S (List.length s)) p s 0
+  end.
+Definition c02_go_accept (name : str) (i L : nat) : bool :=
+  match nth_error name (i + L)%nat with Some c => negb (is_alower c) | None => true end.
+Definition c02_go_in (i L k : nat) : bool := Nat.leb i k && Nat.ltb k (i + L)%nat.
+Definition c02_go_cover1 (p name : str) (k : nat) : bool :=
+  existsb (fun i => c02_go_accept name i (List.length p) && c02_go_in i (List.length p) k) (c02_go_idx p name).
+Definition c02_go_cover (pats : list str) (name : str) (k : nat) : bool :=
+  existsb (fun p => c02_go_cover1 p name k) pats.
+Fixpoint c02_go_apply (cov : nat -> bool) (k : nat) (s : str) : str :=
+  match s with
+  | [] => []
+  | c :: r => (if cov k then aupper c else c) :: c02_go_apply cov (S k) r
+  end.
+Definition c02_go_rewrite (acronyms : list str) (name : str) : str :=
+  c02_go_apply (c02_go_cover (map c02_go_pascal acronyms) name) 0 name.
+Definition c02_go_same_name (acronyms : list str) (a b : str) : bool :=
+  str_eqb (c02_go_rewrite acronyms a) (c02_go_rewrite acronyms b).
+
+(* the EXACT Go class, for a given (ASCII) acronym list: contained in the over-approximation of known_C02_back
+   (C02_go_exact_in_class) and equivalent to the failure of the verdict (C02_back_go_exact) *)
+Definition known_C02_back_go (acronyms : list str) (x : c02_expect) : option string :=
+  if c02_has_pair (c02_go_same_name acronyms) (c02_idents x) then c02_cls "C02-go-acronym-case-collision" else None.
+Definition known_C02_go (acronyms : list str) (uc : unicode) (T : list str) (attrs : list attr) (vs : list variant)
+  : option string :=
+  match known_C02_front T attrs vs with
+  | Some k => Some k
+  | None => match c02_expect_src uc T attrs vs with
+            | Some x => known_C02_back_go acronyms x
+            | None => None
+            end
   end.
 
 (* [acronyms]: Go's uppercase_acronyms list is not empty *)
